@@ -173,7 +173,7 @@ Proof.
   destruct (ensure 1 st) as [st1 [[|]|e|]]; cbn [fst] in *; try exact H1.
   assert (H2 : capok (consume st1 1)) by (unfold capok; rewrite consume_cap; exact H1).
   pose proof (peek_header_cap c _ H2) as H3.
-  destruct (peek_header c (consume st1 1)) as [st3 [h|e|]]; cbn [fst] in *; try exact H3. apply IH, H3.
+  destruct (peek_header c (consume st1 1)) as [st3 [h|e|]]; cbn [fst] in *; try exact H3. destruct e; cbn [fst]; try (apply IH, H3). exact H3.
 Qed.
 
 Lemma try_recover_cap st : capok st -> capok (fst (try_recover c st)).
